@@ -636,6 +636,19 @@ def ob_implicit_sources(run, oid):
             o.check(g is not None, key + "|same-block-as-finalized", "add_parent propagates only when the finalized hash recorded for the slot equals this block's hash", c.span,
                     {"guards": G.atoms_show(atoms)})
             o.check(K.is_arg(b, par, 3) and K.mentions_arg(b, b.operand_term(c.args[1]), 2), key + "|args", "handle_implicitly_finalized(block.slot, parent, ..) with add_parent's own arguments", c.span)
+            # ... and whenever that is the case: nothing else (the parent's own status, the highest finalized slot, ..) stands before the walk - it is also what marks the
+            # slots between parent and child as skipped, and it stops by itself at a slot that is already decided
+            def own_status(a):
+                return a[0] in ("variant", "is_some", "eq", "bool") and a[1] and isinstance(a[1][0], tuple) and any(n == "status" for (_ow, n) in b.provenance(a[1][0])["fields"]) \
+                    and not K.mentions_arg(b, a[1][0], 3) and not (len(a[1]) > 1 and isinstance(a[1][1], tuple) and K.mentions_arg(b, a[1][1], 3))
+            rec = [own_status, lambda a: g is not None and a == g,
+                   # reviewed gates in front: the block's slot is not below the watermark; the link was not recorded before (first registration)
+                   lambda a: a[0] == "lt" and a[2] is False and K.mentions_arg(b, a[1][0], 2) and K.mentions_field(a[1][1], "first_unpruned_slot"),
+                   lambda a: a[0] == "variant" and K.mentions_field(a[1][0], "parents", "FinalityTracker") and K.mentions_arg(b, a[1][0], 2),
+                   lambda a: a[0] == "eq" and a[2] is True and any(K.mentions_arg(b, x, 2) for x in a[1] if isinstance(x, tuple)) and not any(K.mentions_arg(b, x, 3) for x in a[1] if isinstance(x, tuple))]
+            extra = D.extra_guards(prog, b, c.bb, rec)
+            o.check(not extra, key + "|whenever-block-is-the-finalized-one", "no further condition: every link of the block finalized in its slot resolves ancestors and skips the slots in between", c.span,
+                    {"extra": G.atoms_show(extra)})
         else:
             o.fail(key + "|caller", "handle_implicitly_finalized called from unreviewed function %s" % fn, c.span)
 
